@@ -47,6 +47,7 @@ THEOREMS = [
     'PbBss.C17.two_level_pipeline_sir_partial',
     'PbBss.C17.em_posterior_psd',
     'PbBss.C17.balanced_pipeline_chain',
+    'PbBss.C17.watson_balanced_pipeline_chain',
 ]
 ASSUMPTIONS = [
     'PARTIAL: the 99 % MAP-accuracy and 30 dB SIR thresholds with ESTIMATED masks (EM posteriors after DHTV + oracle '
